@@ -724,9 +724,12 @@ def _r14_subslice(base):
         elif t.kind == "punct" and t.text in CLOSE: d -= 1
         elif t.kind == "punct" and t.text == ".." and d == 0:
             lo, hi = untok(_strip_ws(inner[:q])), untok(_strip_ws(inner[q + 1:]))
-            if not lo or not hi:
-                return None
-            return untok(_strip_ws(base[:k])), lo, hi
+            xb = untok(_strip_ws(base[:k]))
+            if not lo:
+                lo = "0"
+            if not hi:
+                hi = f"{xb}.len()"        # X[a..] : up to the end of X
+            return xb, lo, hi
     return None
 
 
